@@ -46,7 +46,8 @@ func VerifH_C14_L1_expansion() {
 	want := 0
 	kind := vz.Choice("kind", 3)
 	keysAlphabet := []string{"a", "b", "ab"}
-	valsAlphabet := []string{"x", "y"}
+	// (the last two values carry the separators a careless rendering of the value map would use)
+	valsAlphabet := []string{"x", "y", "x b:y", "y b:x"}
 	switch kind {
 	case 0:
 		n := vz.IntRange("withCount", -1, 8)
@@ -72,10 +73,18 @@ func VerifH_C14_L1_expansion() {
 		}
 		want = 1
 		for i := 0; i < nm; i++ {
-			nv := vz.Choice("nvals", 3)
+			nv := 1
+			alphabet := valsAlphabet
+			if i == 2 {
+				// (thorough only: the third key has the single value x; two or more values from
+				// the full alphabet on three keys did not finish in 40 minutes)
+				alphabet = valsAlphabet[:1]
+			} else {
+				nv = vz.Choice("nvals", 3)
+			}
 			vals := []string{}
 			for k := 0; k < nv; k++ {
-				vals = append(vals, valsAlphabet[vz.Choice("val", 2)])
+				vals = append(vals, alphabet[vz.Choice("val", len(alphabet))])
 			}
 			spec.WithMatrix[[]string{"a", "b", "c"}[i]] = vals
 			want *= nv
@@ -163,7 +172,7 @@ func VerifH_C14_L3_hashes() {
 	parallel.VerifInstallHashStub()
 	nmax := int64(159)
 	if vz.Thorough() {
-		nmax = 639
+		nmax = 239
 	}
 	n := vz.IntRange("withCount", 1, nmax+1)
 	spec := &execution.ParallelismSpec{CompletionStrategy: execution.AllSuccessful, WithCount: pointer.Int64(n)}
@@ -171,8 +180,8 @@ func VerifH_C14_L3_hashes() {
 	i := vz.IntRange("i", 0, nmax)
 	j := vz.IntRange("j", 0, nmax)
 	vz.Assume(i < j && j < n)
-	hi := vz.HostCallInt("HashIndex", "n:", i)
-	hj := vz.HostCallInt("HashIndex", "n:", j)
+	hi := vz.HostCallIntCode("HashIndex", "n:", i)
+	hj := vz.HostCallIntCode("HashIndex", "n:", j)
 	if hi == hj {
 		vz.Observe("i", i)
 		vz.Observe("j", j)
